@@ -947,7 +947,18 @@ def two_qubit(cx):
                            bounds=((0, math.pi), (0, 2 * math.pi)), tol=1e-12, options=dict(maxiter=2 ** 14))
             _sa = vn_entropy(ptrace(rho2, [2, 2], [0]))
             _iab = _sa + vn_entropy(ptrace(rho2, [2, 2], [1])) - vn_entropy(rho2)
-            p = dict(p, single_start_suboptimal=bool(abs((_iab - (_sa - _r.fun)) - _glob) > 1e-6))
+            _stall = abs((_iab - (_sa - _r.fun)) - _glob) > 1e-6
+            if not _stall:
+                # the library's own search follows a numerically slightly different path (objective shifted by a constant,
+                # projectors built by bloch_state): the class of states on which a single local search can stall is "the
+                # measurement landscape has a local minimum above the global one", probed from six further fixed starts
+                for _s in ((0.3, 0.5), (2.8, 0.5), (1.0, 2.0), (2.0, 4.0), (1.5, 5.5), (0.7, 3.6)):
+                    _q = _minimize(lambda a_: cond_entropy_after_measurement(rho2, a_[0], a_[1]), _s, method="COBYLA",
+                                   bounds=((0, math.pi), (0, 2 * math.pi)), tol=1e-10, options=dict(maxiter=2 ** 12))
+                    if abs((_iab - (_sa - _q.fun)) - _glob) > 1e-6:
+                        _stall = True
+                        break
+            p = dict(p, single_start_suboptimal=bool(_stall))
 
             def t_disc(xq=xq, rho2=rho2, dims=dims, sysa=sysa, sysb=sysb, kind=kind, ket=ket, D=_glob):
                 if ket and abs(D - vn_entropy(ptrace(rho2, [2, 2], [0]))) > 1e-6:
